@@ -152,7 +152,7 @@ class ProgBase(plumpy.Process):
             kind = fx[0]
             if kind == 'out':
                 try:
-                    self.out(fx[1], fx[2])
+                    self.out(fx[1], special(fx[2]))
                     self._t('out', fx[1], fx[2])
                 except ValueError as exc:  # a rejected value; anything else (e.g. a failing output hook) is not the program's business
                     self._t('outerr', fx[1], type(exc).__name__)
@@ -183,7 +183,8 @@ class ProgBase(plumpy.Process):
         if kind == 'unsucc':
             return plumpy.UnsuccessfulResult(ret[1])
         if kind == 'kill':
-            return ps.Kill(MessageBuilder.kill(text=ret[1]))
+            # (text None: the bare ``Kill()`` command, without any message)
+            return ps.Kill() if ret[1] is None else ps.Kill(MessageBuilder.kill(text=ret[1]))
         if kind == 'raise':
             raise ProgError(ret[1])
         raise AssertionError(kind)
@@ -285,12 +286,26 @@ class NoBoolEq:
         return '@NOBOOL'
 
 
+class NoCopy:
+    """A value that can be neither copied nor pickled (a lock, a socket, a generator ...)."""
+
+    def __deepcopy__(self, memo):
+        raise TypeError('cannot copy a NoCopy object')
+
+    __copy__ = __reduce__ = __reduce_ex__ = lambda self, *a: (_ for _ in ()).throw(TypeError('cannot copy a NoCopy object'))
+
+    def __repr__(self):
+        return '@NOCOPY'
+
+
 def special(value):
     """Markers in generated cases standing for values with an unusual ``==``."""
     if isinstance(value, str) and value == '@ANYEQ':
         return AnyEq()
     if isinstance(value, str) and value == '@NOBOOL':
         return NoBoolEq()
+    if isinstance(value, str) and value == '@NOCOPY':
+        return NoCopy()
     if isinstance(value, str) and value == '@T12':
         return (1, 2)  # a single value that happens to be a tuple
     if isinstance(value, str) and value == '@T0':
@@ -398,6 +413,15 @@ def count_waits(program):
 
 def step(ret, sync=False, yields=0, fx=()):
     return {'sync': bool(sync), 'yields': int(yields), 'fx': [[f[0], list(f[1])] for f in fx], 'ret': list(ret)}
+
+
+def awkward_programs():
+    """Programs that only the checks without persistence use: an output that cannot be copied, a bare Kill() command."""
+    return {
+        'nocopy_out': {'steps': [step(['cont', [], {}], yields=1, fx=[(0, ['out', 'o1', '@NOCOPY'])]), step(['value', 3], yields=1, fx=[(0, ['out', 'ns.o2', '@NOCOPY'])])]},
+        'killbare': {'steps': [step(['cont', [], {}], yields=1), step(['kill', None], yields=1)]},
+        'killbare_sync': {'steps': [step(['kill', None], sync=True)]},
+    }
 
 
 def basic_programs():
